@@ -31,6 +31,16 @@ fn oracle() -> Oracle {
                 }
             }
             Some(k) => match (r.items.get(k), o.items.get(k)) {
+                (Some(_), Some(oi)) if o.calls_after.get(k + 1).zip(o.calls_after.get(k)).map(|(a, b)| a > b && seen.deviation_calls.contains(&(a - 1))).unwrap_or(false) => {
+                    // the row whose answer has the wrong number of outputs is an error item (C13's);
+                    // the rows after it are compared as ever
+                    st.witness("row_with_an_answer_of_the_wrong_length");
+                    if matches!(oi, ObsItem::Runtime(_)) {
+                        None
+                    } else {
+                        Some(format!("item {k}: expected an error item for an answer that departs from the first layout, got {}", oi.brief()))
+                    }
+                }
                 (Some(ri), Some(oi)) => {
                     // the order of several virtual signals among themselves is C15's: match them by name
                     let mut ri = ri.clone();
@@ -109,6 +119,11 @@ pub fn run(tier: Tier, seed: u64) -> i32 {
             for placement in 0..5 {
                 for shadow in 0..5 {
                     for (hi, header) in headers.iter().enumerate() {
+                        // quick tier: the function-argument declaration with two W declarations, the
+                        // V_out header with two placements
+                        if tier == Tier::Quick && ((vi == 5 && wi > 1) || (hi == 4 && placement > 1)) {
+                            continue;
+                        }
                         // rows for this header
                         let entry = |col: &str, rowno: usize| -> Entry {
                             match (col, rowno) {
@@ -181,6 +196,22 @@ pub fn run(tier: Tier, seed: u64) -> i32 {
                             continue;
                         }
                         nprog += 1;
+                        // one answer with the wrong number of outputs somewhere in the history; the caller carries on
+                        if placement == 0 && hi == 0 && matches!(shadow, 1 | 2 | 4) && vi >= 1 && wi <= 1 {
+                            let mut m2 = menu.clone();
+                            m2.truncate(4);
+                            m2.push(MenuItem { step: crate::driver::Step::Ans(vec![("Q".into(), V::Num(1))]), deviation: true, label: "only Q".into() });
+                            m2.push(MenuItem { step: crate::driver::Step::Ans(vec![]), deviation: true, label: "no outputs".into() });
+                            let mut c = Case::new(&format!("V#{vi} W#{wi} shadow {shadow}, one answer of the wrong length"), prog.clone(), sigs.clone(), true, menu.iter().take(4).cloned().collect(), m2, 18);
+                            c.continue_after_call_errors = true;
+                            c.dev_budget = 1;
+                            cases.push(c);
+                        }
+                        // a driver that supplies no outputs at all: a declared signal that reads none has its value all the same
+                        if vi == 3 && wi == 0 && placement == 0 && shadow == 0 && (hi == 1 || hi == 2) {
+                            let none = vec![MenuItem::ans(vec![])];
+                            cases.push(Case::new(&format!("V = 7, header {header:?}, driver without outputs"), prog.clone(), sigs.clone(), true, none.clone(), none, 18));
+                        }
                         for ov in [true, false] {
                             if !ov && (vi + wi + placement + shadow + hi) % 5 != 0 {
                                 continue;
@@ -236,7 +267,7 @@ pub fn run(tier: Tier, seed: u64) -> i32 {
         assumptions: vec![
             "reference interpreter evaluates each declaration over the answer of the same call with no variables visible; virtual entries are matched by name (their mutual order is C15's)".into(),
         ],
-        required_witnesses: vec!["row_with_virtual_signal", "virtual_signal_with_expected_column", "virtual_signal_over_Z_or_X_is_an_error_item", "c_expansion", "program_with_variable_named_like_an_output"],
+        required_witnesses: vec!["row_with_virtual_signal", "virtual_signal_with_expected_column", "virtual_signal_over_Z_or_X_is_an_error_item", "c_expansion", "program_with_variable_named_like_an_output", "row_with_an_answer_of_the_wrong_length"],
         exhaustive_note: "every reachable state for every case".into(),
         e1: true,
     };
